@@ -5,6 +5,7 @@ CONSTANTS
   EarlyClose = FALSE
   FlushFirst = FALSE
   Lapse = FALSE
+  ExpiryAware = TRUE
   Emit = TRUE
 INVARIANTS Safety EmitInv
 
